@@ -832,6 +832,40 @@ async def c11_cross_context_closure(w):
             "expected": {"r, r_top": want}}
 
 
+async def c10_yaml_options(w):
+    """update_yaml_config on the real function, three calls: snapshot seeded; a global option changed (must say True); nothing
+    changed (must say False - otherwise every later reload re-creates every context)."""
+    from types import SimpleNamespace as NS
+    import custom_components.pyscript as P
+    hass = await boot()
+    yaml = {"pyscript": {"allow_all_imports": True, "hass_is_global": False}}
+
+    async def fake_yaml(h):
+        return yaml
+    orig = P.async_hass_config_yaml
+    P.async_hass_config_yaml = fake_yaml
+    entry = NS(data={"allow_all_imports": True, "hass_is_global": False})
+
+    async def async_init(domain, context=None, data=None):
+        entry.data = dict(data)        # the import flow updates the entry
+    hass.config_entries = NS(flow=NS(async_init=async_init))
+    hass.data.setdefault("pyscript", {}).pop("config_entry_old", None)
+    out = []
+    try:
+        out.append(await P.update_yaml_config(hass, entry))          # first reload: seeds the snapshot
+        yaml["pyscript"]["allow_all_imports"] = False
+        out.append(await P.update_yaml_config(hass, entry))          # before the flow ran: entry still old
+        entry.data = {"allow_all_imports": False, "hass_is_global": False}
+        out.append(await P.update_yaml_config(hass, entry))          # option changed: widen
+        out.append(await P.update_yaml_config(hass, entry))          # nothing changed: must not widen
+        out.append(await P.update_yaml_config(hass, entry))
+    finally:
+        P.async_hass_config_yaml = orig
+    await shutdown()
+    want = [False, out[1], True, False, False] if not out[1] else [False, True, False, False, False]
+    return {"reproduced": out != want, "observed": {"widen-the-reload verdicts": out}, "expected": {"widen-the-reload verdicts": want}}
+
+
 async def c12_outgoing(w):
     """service.call / domain.service() with control-keyword look-alikes; data delivered must equal the given kwargs
     minus control keywords of the recognised type."""
